@@ -101,6 +101,9 @@ fn base_models(rep: &Report, kinds: &[Kind]) -> Vec<ModelDef> {
     // loops run together with every kind of prefilter
     let pre: Vec<(String, u::Pats)> = crate::e3::prefilter_families().into_iter().filter(|f| !f.ci).map(|f| (format!("Upre:{}", f.name), f.pats)).collect();
     v.extend(defs_named(pre, kinds, false));
+    // ascii_case_insensitive is a builder option like any other: a small
+    // slice of every property's universe is built with it (C11 goes deep)
+    v.extend(defs("U0ci", u::u0(), kinds, true));
     v
 }
 
@@ -179,11 +182,7 @@ fn run_e1(rep: &Report) -> i32 {
             vec!["SPEC is the definition of the property"],
         ),
         "C04" => (
-            {
-                let mut v = base_models(rep, &all);
-                v.extend(defs("U0ci", u::u0(), &all, true));
-                v
-            },
+            base_models(rep, &all),
             Opts {
                 explore: vec![Explore::Joint { anchored: false }, Explore::Joint { anchored: true }],
                 low_pre: if t { vec![true, false] } else { vec![true] },
@@ -271,11 +270,7 @@ fn run_e1(rep: &Report) -> i32 {
             vec!["SPEC is the definition of the property"],
         ),
         "C16" => (
-            {
-                let mut v = base_models(rep, &all);
-                v.extend(defs("U0ci", u::u0(), &all, true));
-                v
-            },
+            base_models(rep, &all),
             Opts {
                 explore: vec![Explore::Contract],
                 low_pre: vec![true, false],
@@ -336,6 +331,9 @@ fn run_e1(rep: &Report) -> i32 {
             Cfg { rep: Rep::N { dd: 1 }, pre: false },
             Cfg { rep: Rep::C { dd: 1, bc: true }, pre: false },
             Cfg { rep: Rep::D { sk: Sk::B, bc: true }, pre: false },
+            // the one-start DFA is built by a different routine than the
+            // two-start one
+            Cfg { rep: Rep::D { sk: Sk::U, bc: true }, pre: false },
         ];
         let (kinds, explores): (Vec<Kind>, Vec<Explore>) = match rep.property.as_str() {
             "C01" => (vec![Kind::LF, Kind::LL], vec![Explore::Find { anchored: false, earliest: false }]),
@@ -350,7 +348,8 @@ fn run_e1(rep: &Report) -> i32 {
             _ => (vec![], vec![]),
         };
         let ci = rep.property == "C11";
-        let subs = |words: Vec<Vec<u8>>, maxk: usize, ci: bool| -> Vec<Deep> { words.into_iter().map(|w| Deep::Subs { word: w, maxk, ci }).collect() };
+        let subs = |words: Vec<Vec<u8>>, maxk: usize, ci: bool| -> Vec<Deep> { words.into_iter().map(|w| Deep::Subs { word: w, maxk, ci, opts: 2 }).collect() };
+        let subs3 = |words: Vec<Vec<u8>>, maxk: usize| -> Vec<Deep> { words.into_iter().map(|w| Deep::Subs { word: w, maxk, ci: false, opts: 3 }).collect() };
         let mut deeps: Vec<Deep> = vec![];
         if ci {
             deeps.push(Deep::Tuples { name: "D3ci-aAb@-len2", alpha: b"aAb@", minlen: 0, maxlen: 2, k: 3, ci: true });
@@ -366,18 +365,21 @@ fn run_e1(rep: &Report) -> i32 {
             deeps.push(Deep::Tuples { name: "D4-abc-len2", alpha: b"abc", minlen: 1, maxlen: 2, k: 4, ci: false });
             deeps.extend(subs(e1run::rg_words(4), 4, false));
             deeps.extend(subs(e1run::rg_words(5), 4, false));
+            deeps.extend(subs3(e1run::rg_words(4), 4));
         } else if ["C04", "C16", "C19"].contains(&rep.property.as_str()) {
             // these step the noncontiguous NFA through its (slow) leftmost
             // post-match states: smaller universes in the quick tier
             deeps.push(Deep::Tuples { name: "D3-ab-len3", alpha: b"ab", minlen: 0, maxlen: 3, k: 3, ci: false });
             deeps.push(Deep::Tuples { name: "D3-abc-len2", alpha: b"abc", minlen: 0, maxlen: 2, k: 3, ci: false });
             deeps.extend(subs(e1run::rg_words(4), 3, false));
+            deeps.extend(subs3(e1run::rg_words(4), 2));
         } else {
             deeps.push(Deep::Tuples { name: "D4-ab-len3", alpha: b"ab", minlen: 0, maxlen: 3, k: 4, ci: false });
             deeps.push(Deep::Tuples { name: "D3-ab-len4", alpha: b"ab", minlen: 1, maxlen: 4, k: 3, ci: false });
             deeps.push(Deep::Tuples { name: "D3-abc-len2", alpha: b"abc", minlen: 0, maxlen: 2, k: 3, ci: false });
             deeps.extend(subs(e1run::rg_words(4), 4, false));
             deeps.extend(subs(vec![b"abcde".to_vec(), b"zyxwv".to_vec(), b"abcab".to_vec(), b"aabab".to_vec(), b"zyxzy".to_vec(), b"abcba".to_vec()], 3, false));
+            deeps.extend(subs3(e1run::rg_words(4), 3));
         }
         if !explores.is_empty() && std::env::var("VERIF_SKIP_DEEP").is_err() {
             e1run::run_deep(rep, &deeps, &kinds, &explores, &reps);
